@@ -6,6 +6,14 @@
 From Fzf Require Import Prelude EditSpec EditModel EditProofs.
 Open Scope Z_scope.
 
+(* the model never fails: no slice of the query is out of range, the current line is always range-checked,
+   constrain terminates — for every history from a state whose query cursor is inside the query.  Hence the
+   "run ... = Ok s'" premises of the theorems below are always satisfiable and never hide a crash. *)
+Theorem run_never_fails : forall is_alnum c acts s,
+  (s_cx s <= length (s_input s))%nat -> exists s', run is_alnum c s acts = Ok s'.
+Proof. exact run_never_fails_proof. Qed.
+Print Assumptions run_never_fails.
+
 (* the cursor of the query line is always inside the query *)
 Theorem cx_inv : forall is_alnum c acts s s',
   (s_cx s <= length (s_input s))%nat -> run is_alnum c s acts = Ok s' -> (s_cx s' <= length (s_input s'))%nat.
@@ -18,11 +26,17 @@ Theorem truncate_bound : forall is_alnum c s s', c_inputless c = false -> do_act
 Proof. exact truncate_bound_proof. Qed.
 Print Assumptions truncate_bound.
 
-(* after a redraw the list cursor designates an existing result, or none when the list is empty *)
-Theorem cursor_inv : forall c s s', 1 <= c_maxitems c -> constrain c s = Ok s' ->
-  (count s' = 0 /\ current_item s' = Ok None) \/ 0 <= s_cy s' < count s'.
-Proof. exact cursor_inv_proof. Qed.
+(* a redraw never fails (the scroll-offset loops of constrain terminate within their fuel), and after it the list
+   cursor designates an existing result, or none when the list is empty *)
+Theorem cursor_inv : forall c s, 1 <= c_maxitems c ->
+  exists s', constrain c s = Ok s' /\
+    ((count s' = 0 /\ current_item s' = Ok None) \/ 0 <= s_cy s' < count s').
+Proof. exact cursor_inv_total_proof. Qed.
 Print Assumptions cursor_inv.
+
+Theorem constrain_total : forall c s, exists s', constrain c s = Ok s'.
+Proof. exact constrain_total_proof. Qed.
+Print Assumptions constrain_total.
 
 (* never more selected lines than the --multi limit *)
 Theorem sel_limit : forall is_alnum c acts s s',
@@ -82,21 +96,42 @@ Print Assumptions accept_prints_selection_or_current.
 (* The query line is a readline-style zipper editor.  run_z runs the model and, side by side, the spec's zipper
    (EditSpec.zstep) driven by the editor command each action stands for (ecmd_of; replace-query = "set the query
    to the text of the current line"); zabs s = (runes before the cursor nearest first, runes after it, kill buffer).
-   FULL STATEMENT (the goal; NOT yet proved for the five word actions):
-     edit_refines_zipper (Theorem, to do) : forall is_alnum c acts s s' z',
-       c_inputless c = false -> (s_cx s <= length (s_input s))%nat -> (no newline in the query and in action arguments) ->
-       run_z is_alnum c s (zabs s) acts = Ok (s', z') -> z' = zabs s'.
-   Proved below: the same for every history that does not contain unix-word-rubout, backward-kill-word,
-   backward-word, forward-word, kill-word (15 of the 20 editing actions, all cursor/selection actions, truncation,
-   redraws, list updates; no newline hypothesis needed).  Missing: the lemma that the two fixed word regexes
-   (EditModel.find_last / find_first_next) travel exactly EditSpec.word_span; it is covered by the correspondence
-   run only (spec check query_is_readline on live fzf, which does catch a mutated word regex). *)
+   Hypotheses, all explicit: there is an input section; the state is well formed (st_ok: cursor inside the query,
+   no newline in the query, in the kill buffer and in the texts of the listed lines); no action argument and no
+   line of a later result list contains a newline (act_ok).  The newline hypothesis is needed because the regex
+   alternative `.$` of forward-word / kill-word does not match a newline. *)
+Theorem edit_refines_zipper : forall is_alnum c acts s s' z',
+  c_inputless c = false -> st_ok s -> Forall act_ok acts ->
+  run_z is_alnum c s (zabs s) acts = Ok (s', z') -> z' = zabs s'.
+Proof. exact edit_refines_zipper_proof. Qed.
+Print Assumptions edit_refines_zipper.
+
+(* the scanner lemmas behind it: the two fixed word regexes travel exactly the spec's word_span *)
+Theorem backward_scan_is_word_span : forall w rb,
+  find_last_plus1 (p2w w) (rev rb) = (length rb - word_span w rb)%nat.
+Proof. exact bw_ncx. Qed.
+Print Assumptions backward_scan_is_word_span.
+Theorem forward_scan_is_word_span : forall is_alnum c l, nlfree l ->
+  find_first_plus1 is_alnum c l = word_span (isw is_alnum c) l.
+Proof. exact find_first_is_span. Qed.
+Print Assumptions forward_scan_is_word_span.
+
+(* without the five word actions no newline hypothesis is needed *)
 Theorem edit_refines_zipper_partial : forall is_alnum c acts s s' z',
   c_inputless c = false -> (s_cx s <= length (s_input s))%nat ->
   forallb (fun a => negb (is_word_motion a)) acts = true ->
   run_z is_alnum c s (zabs s) acts = Ok (s', z') -> z' = zabs s'.
 Proof. exact edit_refines_zipper_partial_proof. Qed.
 Print Assumptions edit_refines_zipper_partial.
+
+(* up/down/first/last/pos/page moves are the spec's cur_move / clamp_pos on what a redraw shows of the state
+   (sabs clamps the cursor), for --cycle and all layouts; the cursor stays on an existing line *)
+Theorem cursor_refines_cur_move : forall c s a s', 1 <= c_maxitems c -> is_cursor_move a = true -> cur_in s ->
+  do_list c s a = Ok s' ->
+  clamp_pos (count s') (s_cy s') = ss_pos (sstep_list (sp_of c) (sabs s) a) /\
+  s_res s' = s_res s /\ s_sel s' = s_sel s /\ cur_in s'.
+Proof. exact cursor_refines_cur_move_proof. Qed.
+Print Assumptions cursor_refines_cur_move.
 
 (* run_z is the model run with a zipper carried along *)
 Theorem run_z_is_run : forall is_alnum c acts s z s' z', run_z is_alnum c s z acts = Ok (s', z') -> run is_alnum c s acts = Ok s'.
@@ -132,3 +167,26 @@ Example c09_nonvacuous :
                             AUp; AToggle; AToggle; AUpdate [(1, [98; 32; 99]); (2, [100])] false; ARender] = Ok s' /\
     s_input s' = [120; 32; 121] /\ s_cx s' = 3%nat /\ map fst (s_sel s') = [1; 0] /\ s_cy s' = 1 /\ count s' = 2.
 Proof. vm_compute. eexists. split; [reflexivity|repeat split]. Qed.
+
+(* non-vacuity of edit_refines_zipper: a well-formed state and a history with all five word actions *)
+Example c09_word_nonvacuous :
+  let c := mkCfg 0 false true false false 5 3 false in
+  let isal := fun x => (48 <=? x) && (x <=? 122) in
+  let s0 := mkSt [97; 98; 32; 99; 100; 32; 32; 101] 4 [] [(0, [104; 105])] 0 0 [] in
+  let acts := [ABackwardWord; AForwardWord; AForwardWord; AKillWord; AYank; AUnixWordRubout; ABackwardKillWord; APut [120; 32]; ABackwardWord; ATruncate] in
+  st_ok s0 /\ Forall act_ok acts /\
+  match run_z isal c s0 (zabs s0) acts with
+  | Ok (s', z') => z' = zabs s' /\ s_input s' = [97; 98; 32; 120; 32] /\ s_cx s' = 3%nat /\ s_yanked s' = [99; 100; 32; 32]
+  | Err _ => False
+  end.
+Proof.
+  split; [|split].
+  - unfold st_ok, cx_ok, zok, items_ok, nlfree. cbn. repeat split; try lia; repeat constructor; unfold NLc; discriminate.
+  - repeat constructor; unfold NLc; discriminate.
+  - vm_compute. repeat split; reflexivity.
+Qed.
+
+(* Stated but not proved (explored by the live spec checks selection_follows_rules / cursor_follows_actions only):
+UNPROVED selection_refines_spec : forall c s a s', is_selection_action a = true -> a <> AToggleIn -> a <> AToggleOut -> cur_in s -> NoDup (map idx (s_res s)) -> do_list c s a = Ok s' -> map idx (ss_sel (sstep_list (sp_of c) (sabs s) a)) = map idx (s_sel s') /\ ss_pos (sstep_list (sp_of c) (sabs s) a) = clamp_pos (count s') (s_cy s')
+UNPROVED update_refines_spec : forall is_alnum c s rs reload s', c_track c = false -> do_action is_alnum c s (AUpdate rs reload) = Ok s' -> sabs s' = sstep_list (sp_of c) (sabs s) (AUpdate rs reload)
+   (toggle-in / toggle-out are excluded on purpose: the man page and the code differ, see KNOWN_FINDINGS) *)
